@@ -114,19 +114,34 @@ fn probe_one(m: &HistModel, st: &St, i: usize, proto: u16, id: u16, other_id: u1
         }
     }
     if allowed {
-        // once the template is received the same data bytes decode normally (reference decode)
-        let mut p = m.rebuild(i, &st.enc[i]).unwrap();
+        // once the template is received the same data bytes decode normally (reference decode), however the
+        // template arrives: alone, after a new template for another id in the same flowset/set, or (V9) after a
+        // byte-identical copy of a template the parser already holds
         let alone = mk(&[("D", id)]);
-        let t = mk(&[("T", id)]);
-        p.parse_bytes(&alone);
-        p.parse_bytes(&t);
-        let got: Vec<CPkt> = p.parse_bytes(&alone).iter().map(c_pkt).collect();
-        let mut rc = RefCache::default();
-        let _ = ref_buffer(&t, &mut rc);
-        let exp = ref_buffer(&alone, &mut rc).expect("probe outside reference domain");
-        for mut is in crate::diff::diff_list(&exp, &got) {
-            is.sig = format!("{}/late-template/{}", pn, is.sig);
-            out.push(is);
+        let mut deliveries: Vec<(&str, Vec<u8>)> = vec![("alone", mk(&[("T", id)]))];
+        if proto == 9 {
+            deliveries.push(("after-a-new-template-in-the-same-flowset", v9_packet(&V9Pkt::new(vec![V9Set::Tpl(vec![V9Tpl { id: 903, fields: lay_a.clone() }, V9Tpl { id, fields: lay_a.clone() }], 0)]))));
+            if let Some(RefTpl::Plain(f)) = st.refc[i].v9.get(&other_id) {
+                deliveries.push(("after-a-copy-of-a-cached-template-in-the-same-flowset", v9_packet(&V9Pkt::new(vec![V9Set::Tpl(vec![V9Tpl { id: other_id, fields: f.clone() }, V9Tpl { id, fields: lay_a.clone() }], 0)]))));
+            }
+        } else {
+            deliveries.push(("after-another-template-set-in-the-same-message", ipfix_message(&IpfixMsg::new(vec![IpfixSet::Tpl(vec![IpfixTpl { id: 903, fields: lay_a.clone() }], 0), IpfixSet::Tpl(vec![IpfixTpl { id, fields: lay_a.clone() }], 0)]))));
+            if let Some(RefTpl::Plain(f)) = st.refc[i].ipfix.get(&other_id) {
+                deliveries.push(("after-a-copy-of-a-cached-template-in-the-same-message", ipfix_message(&IpfixMsg::new(vec![IpfixSet::Tpl(vec![IpfixTpl { id: other_id, fields: f.clone() }], 0), IpfixSet::Tpl(vec![IpfixTpl { id, fields: lay_a.clone() }], 0)]))));
+            }
+        }
+        for (how, t) in deliveries {
+            let mut p = m.rebuild(i, &st.enc[i]).unwrap();
+            p.parse_bytes(&alone);
+            p.parse_bytes(&t);
+            let got: Vec<CPkt> = p.parse_bytes(&alone).iter().map(c_pkt).collect();
+            let mut rc = st.refc[i].clone();
+            let _ = ref_buffer(&t, &mut rc);
+            let exp = ref_buffer(&alone, &mut rc).expect("probe outside reference domain");
+            for mut is in crate::diff::diff_list(&exp, &got) {
+                is.sig = format!("{}/late-template/{}/{}", pn, how, is.sig);
+                out.push(is);
+            }
         }
     }
 }
